@@ -1018,8 +1018,10 @@ impl Simulator {
     fn set_pc(&mut self, addr_word: Word, st_check_mem: bool) -> Result<(), SimErr> {
         let addr = addr_word.get_if_init(self.flags.strict, SimErr::StrictJmpAddrUninit)?;
         if self.flags.strict && st_check_mem {
-            // Check next memory value is initialized:
-            if !self.read_mem(addr, self.default_mem_ctx())?.is_init() {
+            // Check next memory value is initialized
+            // (peek only: an access check, IO effects or access tracking here would make
+            // strict mode change what non-strict mode does):
+            if !self.mem[addr].is_init() {
                 return Err(SimErr::StrictPCNextUninit);
             }
         }
